@@ -93,6 +93,7 @@ type Inject struct {
 	To   int    `json:"to"`
 	Kind string `json:"kind"` // propose | vote | newview | timeout | fetch
 	Gen  uint64 `json:"gen"`  // seed of the structural generator for this message
+	Mode string `json:"mode,omitempty"` // "corrupt": a recorded genuine message with every signature spoiled, delivered twice
 }
 
 type SmallOp struct {
@@ -204,7 +205,7 @@ type profile struct {
 
 var allActs = []string{"equivocate", "badparent", "staleqc", "inflate", "dupsigner", "relabel", "subquorum",
 	"wrongblock", "genesisview", "futuretimeout", "badtimeoutsig", "dupvote", "multivote", "zerovote", "unknownvote",
-	"strayvote", "replay", "liefetch", "silent", "staleTC", "swapids", "nosig", "sameview", "aggreplay", "forgevote", "forgetc", "forgecontrib"}
+	"strayvote", "replay", "liefetch", "silent", "staleTC", "swapids", "nosig", "sameview", "aggreplay", "forgevote", "forgetc", "forgecontrib", "aggtwin"}
 
 func profileFor(prop string) profile {
 	pr := profile{byz: 0.6, acts: allActs, faults: 6, leaders: []string{"round-robin", "round-robin", "round-robin", "fixed", "carousel", "reputation", "scripted"}}
@@ -274,11 +275,30 @@ func GenPlan(prop string, seed uint64) *Plan {
 		p.Cache = pick(g, 1, 1, 2, 3, 5, 8, 16, 64, 100) // the property is about replicas that have a cache
 	}
 	p.SyncVerify = true
-	if (prop == "C09" && g.p(0.4)) || g.p(0.04) {
+	if ((prop == "C09" || prop == "C11") && g.p(0.4)) || g.p(0.04) {
 		p.SyncVerify = false // votes verified in background goroutines, released by the scheduler in a seeded order
 	}
-	if (prop == "C08" || prop == "C11") && p.Ruleset != "fasthotstuff" && g.p(0.4) {
-		p.Knobs = map[string]int{"aggqc": 1}
+	if !p.SyncVerify {
+		if mix(p.Inner, 0x70696e72)%2 == 0 {
+			p.Knobs = map[string]int{"parkInner": 1} // verifications also wait below the cache
+		}
+		if prop == "C11" {
+			// what can make a cache wrong under concurrency: the same (invalid or valid) vote verified twice at once
+			pr.acts = []string{"forgevote", "forgevote", "forgevote", "forgevote", "replay", "dupvote", "zerovote", "strayvote"}
+			if p.Cache == 0 {
+				p.Cache = 8
+			}
+		}
+	}
+	if (prop == "C08" || prop == "C11" || prop == "C02") && p.Ruleset != "fasthotstuff" && g.p(0.4) {
+		if p.Knobs == nil {
+			p.Knobs = map[string]int{}
+		}
+		p.Knobs["aggqc"] = 1
+	}
+	if prop == "C02" && (p.Ruleset == "fasthotstuff" || p.Knobs["aggqc"] == 1) {
+		// aggregate certificates in use: weight the one forgery that lives inside them
+		pr.acts = append(append([]string{}, pr.acts...), "aggtwin", "aggtwin", "aggtwin", "aggtwin", "aggtwin", "aggtwin")
 	}
 	p.Wire = pr.forceWire || g.p(0.6)
 	p.Leader = pick(g, pr.leaders...)
@@ -399,6 +419,27 @@ func GenPlan(prop string, seed uint64) *Plan {
 			budget--
 		}
 	}
+	if prop == "C02" && len(p.Byz) > 0 && (p.Ruleset == "fasthotstuff" || p.Knobs["aggqc"] == 1) && p.Crypto != "bls12" && mix(p.Inner, 0x61747769)%2 == 0 {
+		// a Byzantine leader that does nothing but plant a relabelled twin in its aggregates, with enough early
+		// timers for views to fail so that aggregates are needed
+		// Two colluding replicas (n = 7): one attests the genuine newest QC, the other its twin.
+		if p.N < 7 {
+			p.N = 7
+		}
+		if len(p.Byz) < 2 {
+			id := p.Byz[0].ID%p.N + 1
+			p.Byz = append(p.Byz, ByzNd{ID: id})
+		}
+		p.Byz = p.Byz[:2]
+		for i := range p.Byz {
+			p.Byz[i].Kind, p.Byz[i].Acts, p.Byz[i].Rate = "script", []string{"aggtwin"}, 1.0
+		}
+		budget = (p.N-1)/3 - 2
+		p.Leader, p.Script = "round-robin", nil
+		if p.EarlyTimer == 0 {
+			p.EarlyTimer = 0.1
+		}
+	}
 
 	healAt := p.UntilMs
 	if pr.liveness {
@@ -481,7 +522,11 @@ func GenPlan(prop string, seed uint64) *Plan {
 			if p.knob("kauri", 0) == 1 && g.p(0.35) {
 				kind = "contrib"
 			}
-			p.Inject = append(p.Inject, Inject{AtMs: g.intn(p.UntilMs), From: from, To: g.rng(1, p.N), Kind: kind, Gen: g.u64()})
+			in := Inject{AtMs: g.intn(p.UntilMs), From: from, To: g.rng(1, p.N), Kind: kind, Gen: g.u64()}
+			if mix(in.Gen, 0x636f7272)%10 < 3 && kind != "fetch" && kind != "contrib" {
+				in.Mode = "corrupt"
+			}
+			p.Inject = append(p.Inject, in)
 		}
 	}
 	return p
